@@ -321,18 +321,46 @@ func (e *Engine) checkSubs(ep int) {
 	resSet, accSet := setOf(resources), setOf(access)
 	// (3) system.reset content
 	pubs := conn.PubsSnapshot()
-	if len(resSet) == 0 && len(accSet) == 0 {
-		// nothing to serve: Serve must fail without announcing anything
-		if len(pubs) > 0 {
-			e.H.Violate("C09", "reset-without-ownership", "", fmt.Sprintf("service owns nothing but published %s %s", pubs[0].Subject, pubs[0].Data))
-		}
-		return
-	}
-	nreset, nresetServe := 0, 0
 	serveTask := "serve"
 	if ep > 0 {
 		serveTask = "serve" + strconv.Itoa(ep+1)
 	}
+	// staleOld: a ResetAll (or the announcement after a reconnect) begun
+	// before the ownership was changed carries the lists of its time, even
+	// if it is published on the new connection
+	staleOld := func(p *simconn.PubRec, resources, access []string) bool {
+		if !(ep >= 1 && c.Owned2 != nil && p.Task != serveTask) {
+			return false
+		}
+		oldRes, oldAcc := ownedModelEp(c, 0)
+		stale := false
+		for _, sub := range e.Subs {
+			if sub != nil && sub.Actor == p.Task && sub.Invoke != 0 && sub.Invoke < e.Epochs[ep].ServeInvoke && (sub.Return == 0 || sub.Return > p.Seq) {
+				stale = true
+			}
+		}
+		if strings.HasPrefix(p.Task, "conncb") || strings.HasPrefix(p.Task, "serve") {
+			stale = true // callbacks of the previous connection, the previous Serve call
+		}
+		return stale && fmt.Sprint(setOf(resources)) == fmt.Sprint(setOf(oldRes)) && fmt.Sprint(setOf(access)) == fmt.Sprint(setOf(oldAcc))
+	}
+	if len(resSet) == 0 && len(accSet) == 0 {
+		// nothing to serve: Serve must fail without announcing anything
+		for _, p := range pubs {
+			var ev struct {
+				Resources []string `json:"resources"`
+				Access    []string `json:"access"`
+			}
+			if p.Subject == "system.reset" && json.Unmarshal(p.Data, &ev) == nil && staleOld(p, ev.Resources, ev.Access) {
+				e.Sim.Probe("announcement begun before the ownership change, published after it")
+				continue
+			}
+			e.H.Violate("C09", "reset-without-ownership", "", fmt.Sprintf("service owns nothing but published %s %s", p.Subject, p.Data))
+			break
+		}
+		return
+	}
+	nreset, nresetServe := 0, 0
 	customSeen := map[int]int{}
 	for i, p := range pubs {
 		if p.Subject != "system.reset" {
@@ -365,24 +393,9 @@ func (e *Engine) checkSubs(ep int) {
 			nresetServe++
 		}
 		e.H.Evals++
-		if ep >= 1 && c.Owned2 != nil && p.Task != serveTask {
-			// a ResetAll (or the announcement after a reconnect) begun
-			// before the ownership was changed carries the lists of its
-			// time, even if it is published on the new connection
-			oldRes, oldAcc := ownedModelEp(c, 0)
-			stale := false
-			for _, sub := range e.Subs {
-				if sub != nil && sub.Actor == p.Task && sub.Invoke != 0 && sub.Invoke < e.Epochs[ep].ServeInvoke && (sub.Return == 0 || sub.Return > p.Seq) {
-					stale = true
-				}
-			}
-			if strings.HasPrefix(p.Task, "conncb") || strings.HasPrefix(p.Task, "serve") {
-				stale = true // callbacks of the previous connection, the previous Serve call
-			}
-			if stale && fmt.Sprint(setOf(ev.Resources)) == fmt.Sprint(setOf(oldRes)) && fmt.Sprint(setOf(ev.Access)) == fmt.Sprint(setOf(oldAcc)) {
-				e.Sim.Probe("announcement begun before the ownership change, published after it")
-				continue
-			}
+		if staleOld(p, ev.Resources, ev.Access) {
+			e.Sim.Probe("announcement begun before the ownership change, published after it")
+			continue
 		}
 		if fmt.Sprint(setOf(ev.Resources)) != fmt.Sprint(resSet) || fmt.Sprint(setOf(ev.Access)) != fmt.Sprint(accSet) {
 			e.H.Violate("C09", "reset-content", "", fmt.Sprintf("service %q owned=%v: system.reset announced resources=%v access=%v, expected resources=%v access=%v", c.SvcName, c.Owned, ev.Resources, ev.Access, resSet, accSet))
